@@ -231,8 +231,8 @@ def oracle_seq(line, obs, g):
                 return f'request {rq}: the kernel grants the mapping but the reserve was used', st
             if ln < n:
                 return f'request {rq}: region {r} is shorter than requested', st
-            if a < 0 or a + ln > size:
-                return f'request {rq}: region {r} is outside the reserve of {size} bytes', st
+            if a < 0 or a + ln > size or g['min'] + a < g['fentry'] or g['min'] + a + ln > g['fend']:
+                return f'request {rq}: region {r} is outside the reserve of {size} bytes (placeholder function: {g["fend"] - g["fentry"]} bytes)', st
             regions.append((a, ln, rq))
             continue
         m = _M.match(r)
@@ -270,7 +270,7 @@ def parse_crun(line, obs):
             'clobbered': int(head['clobbered']), 'final': int(head['off'][1:]), 'recs': recs, 'T': len(per)}
 
 
-def oracle_crun(line, obs):
+def oracle_crun(line, obs, g=None):
     """Property on one concurrent run. Returns (why, history, stats)."""
     st = {'requests': 0, 'ok': 0, 'err': 0, 'duplicates': 0, 'overlapping_pairs_in_time': 0}
     if obs is None:
@@ -291,7 +291,7 @@ def oracle_crun(line, obs):
             continue
         st['ok'] += 1
         a = int(res[1:])
-        if a < 0 or a + n > size:
+        if a < 0 or a + n > size or (g is not None and (h['min'] + a < g['fentry'] or h['min'] + a + n > g['fend'])):
             return f'request #{i} (len {n}) got [{a},{a + n}) outside the reserve of {size} bytes', h, st
         if n > 0:
             regs.append((a, n, i))
@@ -360,7 +360,7 @@ def explains_line(h):
 
 def plan(tier, rng, g, widen, hist):
     """Lines per probe process."""
-    nproc, nseq, nsmall, nlarge = (3, 120, 150, 8) if tier == 'quick' else (8, 600, 1500, 40)
+    nproc, nseq, nsmall, nlarge = (3, 120, 150, 6) if tier == 'quick' else (8, 600, 1500, 30)
     if widen:
         nlarge *= 10
         nsmall *= 3
@@ -372,7 +372,7 @@ def plan(tier, rng, g, widen, hist):
         for _ in range(nsmall):
             lines.append(gen_crun_small(rng, g))
         for k in range(nlarge):
-            unit = (1, 1) if (tier == 'thorough' or widen) and k % 10 == 0 else None
+            unit = (1, 1) if (tier == 'thorough' or widen) and k == 0 else None
             lines.append(gen_crun_large(rng, g, tier, unit))
         procs.append(lines)
     return procs
@@ -398,7 +398,7 @@ def quick_scan(lines, obs, g):
     for line, o in zip(lines, obs):
         if line.startswith('c20.seq') and oracle_seq(line, o, g)[0]:
             return True
-        if line.startswith('c20.crun') and oracle_crun(line, o)[0]:
+        if line.startswith('c20.crun') and oracle_crun(line, o, g)[0]:
             return True
     return False
 
@@ -469,7 +469,7 @@ def run(tier):
             if why:
                 bad.append((line, why, obs))
         elif line.startswith('c20.crun'):
-            why, h, st = oracle_crun(line, obs)
+            why, h, st = oracle_crun(line, obs, g)
             short = len(line.split()[5].split(',')) < 20
             stats['conc_histories_short' if short else 'conc_histories_long'] += 1
             stats['conc_requests'] += st['requests']
@@ -497,7 +497,13 @@ def run(tier):
     seq_idx = [i for i, l in enumerate(all_lines) if l.startswith('c20.seq') and all_obs[i] is not None and not all_obs[i].startswith('env-mismatch')]
     mlines = [all_lines[i].replace('pristine:', '') for i in seq_idx]
     vlines, vsrc = [], []
+    budget = {'short': 500 if tier == 'quick' else 12000, 'long': 26 if tier == 'quick' else 250, 'skipped': 0}
     for line, h, short in ([] if bad else crun):     # trace validation is pointless once the property itself failed
+        kind = 'short' if short and h['stamps'] else 'long'
+        if budget[kind] <= 0 or len(h['lens']) > (5000 if tier == 'quick' else 16000):
+            budget['skipped'] += 1     # (the widened search issues far more histories than need to be validated against the model)
+            continue
+        budget[kind] -= 1
         if short and h['stamps']:
             vlines.append(admits_line(h))
         else:
@@ -549,7 +555,7 @@ def run(tier):
                 'region, distinct by (request kind+size, region offset); a trace = one whole sequential history compared with the model, or one '
                 'concurrent history accepted by admits (full interleaving search, short histories) / explains (candidate schedule replayed)',
         'distribution': dict(stats, request_kinds_sequential=hist['req_kind'], admitted_by_search=validated['admitted'],
-                             explained_by_schedule=validated['explained'], reserve_bytes=g['max'] - g['min'],
+                             explained_by_schedule=validated['explained'], conc_histories_not_validated=budget['skipped'], reserve_bytes=g['max'] - g['min'],
                              placeholder=g['fname'], probe_processes=len(procs), widened=widen, gen_changed_this_run=changed,
                              impl_seconds=round(t_impl, 1), model_seconds=round(t_model, 1)),
         'samples': [{'op': l[:300], 'impl': (o or '')[:300]} for l, o in list(zip(all_lines, all_obs))[:3] + list(zip(all_lines, all_obs))[-2:]],
@@ -569,7 +575,7 @@ def replay(body):
             runs = 30
             for k in range(runs):
                 rc, obs, log = run_impl(binary, [line], 'c20-replay', timeout=300)
-                why, h, st = oracle_crun(line, obs[0])
+                why, h, st = oracle_crun(line, obs[0], g)
                 if why:
                     worst = (k, why, st)
                     break
